@@ -176,7 +176,20 @@ func TestVerifC23Sample(t *testing.T) {
 		"a rule 'matches' when action and resource are equal or '*' and the name pattern is '*', a prefix wildcard 'p*' or the exact name")
 	reqs := c23AllReqs()
 	n := r.N(2500, 60000)
+	only := -1
+	if rp := verifkit.Replay(); rp != nil { // bin/check C23 --replay <witness.json>: re-run exactly that sampled case
+		inner, _ := rp["replay"].(map[string]any)
+		ci, okc := inner["case"].(float64)
+		seed, oks := rp["seed"].(float64)
+		if okc && oks && rp["leg"] == "sample" {
+			only, r.Seed, n = int(ci), int64(seed), int(ci)+1
+			r.Note("replayed", map[string]any{"case": only, "seed": r.Seed})
+		}
+	}
 	for ci := 0; ci < n; ci++ {
+		if only >= 0 && ci != only {
+			continue
+		}
 		rng := r.Rand(ci)
 		cfg := c23Config{DefaultAllow: rng.Intn(2) == 0}
 		perm := rng.Perm(len(c23CfgPrincipals))
@@ -209,7 +222,7 @@ func TestVerifC23Sample(t *testing.T) {
 		for qi, q := range reqs {
 			got, pn := c23Ask(auth, q)
 			if pn != nil {
-				r.Violation("panic_in_allows", fmt.Sprintf("Allows panicked: %v", pn), map[string]any{"config": cfg, "request": q})
+				r.Violation("panic_in_allows", fmt.Sprintf("Allows panicked: %v", pn), map[string]any{"case": ci, "config": cfg, "request": q})
 				bad = true
 				break
 			}
@@ -223,7 +236,7 @@ func TestVerifC23Sample(t *testing.T) {
 				both++
 			}
 			if got != want && !bad {
-				r.Violation(c23Class(got, why), fmt.Sprintf("Allows(%q,%s,%s,%q)=%v, statement says %v (%s)", q.P, q.A, q.R, q.N, got, want, why), map[string]any{"config": cfg, "request": q, "got": got, "want": want, "reason": why})
+				r.Violation(c23Class(got, why), fmt.Sprintf("Allows(%q,%s,%s,%q)=%v, statement says %v (%s)", q.P, q.A, q.R, q.N, got, want, why), map[string]any{"case": ci, "config": cfg, "request": q, "got": got, "want": want, "reason": why})
 				bad = true
 			}
 		}
@@ -273,7 +286,7 @@ func TestVerifC23Sample(t *testing.T) {
 			for qi, q := range reqs {
 				got2, pn := c23Ask(auth2, q)
 				if pn != nil {
-					r.Violation("panic_in_allows", fmt.Sprintf("Allows panicked: %v", pn), map[string]any{"config": cfg2, "request": q})
+					r.Violation("panic_in_allows", fmt.Sprintf("Allows panicked: %v", pn), map[string]any{"case": ci, "config": cfg2, "request": q})
 					bad = true
 					break
 				}
@@ -281,12 +294,12 @@ func TestVerifC23Sample(t *testing.T) {
 					changed++
 				}
 				if asAllow && base[qi] && !got2 {
-					r.Violation("adding_allow_rule_removed_access", fmt.Sprintf("adding allow rule %+v for %q: Allows(%q,%s,%s,%q) went true -> false", ru, target, q.P, q.A, q.R, q.N), map[string]any{"config_before": cfg, "config_after": cfg2, "added": ru, "principal": target, "request": q})
+					r.Violation("adding_allow_rule_removed_access", fmt.Sprintf("adding allow rule %+v for %q: Allows(%q,%s,%s,%q) went true -> false", ru, target, q.P, q.A, q.R, q.N), map[string]any{"case": ci, "config_before": cfg, "config_after": cfg2, "added": ru, "principal": target, "request": q})
 					bad = true
 					break
 				}
 				if !asAllow && !base[qi] && got2 {
-					r.Violation("adding_deny_rule_granted_access", fmt.Sprintf("adding deny rule %+v for %q: Allows(%q,%s,%s,%q) went false -> true", ru, target, q.P, q.A, q.R, q.N), map[string]any{"config_before": cfg, "config_after": cfg2, "added": ru, "principal": target, "request": q})
+					r.Violation("adding_deny_rule_granted_access", fmt.Sprintf("adding deny rule %+v for %q: Allows(%q,%s,%s,%q) went false -> true", ru, target, q.P, q.A, q.R, q.N), map[string]any{"case": ci, "config_before": cfg, "config_after": cfg2, "added": ru, "principal": target, "request": q})
 					bad = true
 					break
 				}
@@ -307,6 +320,17 @@ func TestVerifC23Sample(t *testing.T) {
 		if ci < 2 || (nontrivial && ci < 40) {
 			r.Sample(map[string]any{"config": cfg, "reasons": reasons})
 		}
+	}
+	// observed, not judged: two configuration entries with the same principal name. The statement
+	// speaks of the rules "for its principal"; which entry counts is not specified.
+	{
+		x := c23Rule{"produce", "topic", "a"}
+		dup := c23Real(c23Config{DefaultAllow: false, Principals: []c23Principal{{Name: "alice", Deny: []c23Rule{x}}, {Name: "alice", Allow: []c23Rule{x}}}})
+		got, _ := c23Ask(dup, c23Req{"alice", "produce", "topic", "a"})
+		r.Note("observed_not_judged_duplicate_principal_entries", map[string]any{"config": "default deny; principals: [alice{deny produce/topic/a}, alice{allow produce/topic/a}]", "allows_alice_produce_topic_a": got, "meaning": "true = the later entry replaces the earlier one, the earlier entry's deny rule is not applied"})
+	}
+	if only >= 0 {
+		return
 	}
 	r.Floor("reason_deny_rule", 1000)
 	r.Floor("reason_allow_rule", 1000)
